@@ -36,6 +36,13 @@ TABLE_ALGOS = ("SLIDING_WIN", "COMB_1T", "COMB_2T")
 OOB_KINDS = ("stack-buffer-overflow", "heap-buffer-overflow", "global-buffer-overflow",
              "stack-buffer-underflow", "dynamic-stack-buffer-overflow", "stack-overflow")
 JUNK_A, JUNK_B = 0xA5, 0x3C
+PRI_CHEAP, PRI_CORE, PRI_EXT, PRI_SWEEP = 0, 1, 2, 3
+CHEAP_OPS = (OP_ADD, OP_SUB, OP_CHK, OP_RT)
+# plain-build milliseconds of multiplication work per (configuration, built-in curve); case counts
+# follow from this through a fixed cost model (no clock is read)
+BUDGET_MS = {"quick": 400.0, "thorough": 1000.0}
+MIN_MULT_CASES = 4
+LOAD_LIMIT_MS = {"quick": 6000.0, "thorough": 20000.0}
 CRASH_LIMIT = 3           # crashes per (job, build, entry point, behaviour class) before the class is no longer fed
 
 
@@ -437,9 +444,11 @@ def gen_builtin(job):
     cases = []
     O = None
 
-    def emit(op, alias, A, B, k1, k2, exp, rel, scl, rot=-1):
+    def emit(op, alias, A, B, k1, k2, exp, rel, scl, pri=PRI_CORE):
         body = pk_body(cspec, nb, alias, A, B, k1, k2)
-        cases.append((op, body, exp, (rel, scl), rot))
+        if op in CHEAP_OPS:
+            pri = PRI_CHEAP
+        cases.append((op, body, exp, (rel, scl), pri, 0))
 
     # ---- add / sub / doubling --------------------------------------------------
     P, Q, S = rpt(), rpt(), rpt()
@@ -487,20 +496,23 @@ def gen_builtin(job):
             continue
         seen.add(k)
         scl = tag if tag.startswith(("comb", "slwin")) else sclass(k, n, m)
-        emit(OP_BP, 0, rep(O), rep(O), k, 0, expo(kG(k)), "G", scl)
+        pri = PRI_CORE if tag in ("special", "all-ones") or (tag == "pow2" and k.bit_length() in (m, m - 1)) else PRI_EXT
+        emit(OP_BP, 0, rep(O), rep(O), k, 0, expo(kG(k)), "G", scl, pri)
         if full or i % 2 == 0 or tag == "special":
             A = P if i % 3 else Q
-            emit(OP_UNK, 0, rep(A), rep(O), k, 0, expo(ec.mul(c, k % n, A)), "P", scl)
+            emit(OP_UNK, 0, rep(A), rep(O), k, 0, expo(ec.mul(c, k % n, A)), "P", scl, pri)
     for k in (0, 1, 2, n, 5):
-        emit(OP_UNK, 0, rep(O, S if k & 1 else None), rep(O), k, 0, expo(None), "O", sclass(k, n, m))
+        emit(OP_UNK, 0, rep(O, S if k & 1 else None), rep(O), k, 0, expo(None), "O", sclass(k, n, m),
+             PRI_CORE if k in (0, n) else PRI_EXT)
     emit(OP_UNK, 0, rep(G), rep(O), n - 1, 0, expo(ec.neg(c, G)), "G-copy", "n-1")
     if full:
-        # a random scalar of every bit length <= m; each configuration takes a quarter (rot)
+        # a random scalar of every bit length <= m (lowest priority: configurations with budget left
+        # take a seeded subset each, the union over configurations covers every length many times)
         for L in range(1, m + 1):
             k = (1 << (L - 1)) | (rng.bits(L - 1) if L > 1 else 0)
-            emit(OP_BP, 0, rep(O), rep(O), k, 0, expo(kG(k)), "G", "len-sweep", rot=L % 4)
+            emit(OP_BP, 0, rep(O), rep(O), k, 0, expo(kG(k)), "G", "len-sweep", PRI_SWEEP)
             if L % 4 == 1:
-                emit(OP_UNK, 0, rep(P), rep(O), k, 0, expo(ec.mul(c, k % n, P)), "P", "len-sweep", rot=(L // 4) % 4)
+                emit(OP_UNK, 0, rep(P), rep(O), k, 0, expo(ec.mul(c, k % n, P)), "P", "len-sweep", PRI_SWEEP)
 
     # ---- twin multiplication ---------------------------------------------------
     def rk():
@@ -520,13 +532,15 @@ def gen_builtin(job):
             if al:
                 rb = ra
             e = ec.add(c, ec.mul(c, k1 % n, A), ec.mul(c, k2 % n, B))
-            emit(OP_TWIN, al, ra, rb, k1, k2, expo(e), rel, sclass(k1, n, m) + "|" + sclass(k2, n, m))
+            emit(OP_TWIN, al, ra, rb, k1, k2, expo(e), rel, sclass(k1, n, m) + "|" + sclass(k2, n, m),
+                 PRI_CORE if j < 2 else PRI_EXT)
     for ri, (rel, B) in enumerate([("B", P), ("B==G", G), ("B==-G", ec.neg(c, G)), ("B==O", O), ("B==2G", kG(2))]):
         for j in range(per if full else 3):
             k1, k2 = spairs[(ri * 5 + j) % len(spairs)] if not full else spairs[j]
             e = ec.add(c, kG(k1), ec.mul(c, k2 % n, B))
-            emit(OP_TWINBP, 0, rep(O), rep(B, S), k1, k2, expo(e), rel, sclass(k1, n, m) + "|" + sclass(k2, n, m))
-    for _, _, e, _, _ in cases:
+            emit(OP_TWINBP, 0, rep(O), rep(B, S), k1, k2, expo(e), rel, sclass(k1, n, m) + "|" + sclass(k2, n, m),
+                 PRI_CORE if j < 1 else PRI_EXT)
+    for _, _, e, _, _, _ in cases:
         if e[0] == 0 and not ec.on_curve(c, (e[1], e[2])):
             raise common.Inconclusive("oracle produced an off-curve point on %s" % c.name)
     return {"kind": "builtin", "name": c.name, "bits": m, "n_bits": n.bit_length(), "m": m, "cases": cases,
@@ -681,13 +695,13 @@ def gen_syn(job):
         return (1, 0, 0) if P is None else (0, P[0], P[1])
 
     cases = []
-    pads = [m0] + ([8, 64] if tier == "quick" else [8, 16, 32, 64, 128])
+    pads = [m0, 8, 16, 32, 64, 128]       # each configuration runs m0 and the one equal to its digit width
     pads = [m for i, m in enumerate(pads) if m >= m0 and m not in pads[:i]]
     specs = {m: pk_curve_syn(c, m) for m in pads}
 
     def emit(op, m, alias, A, B, k1, k2, exp, rel, scl):
         body = pk_body(specs[m], nbytes(m), alias, A, B, k1, k2)
-        cases.append((op, body, exp, (rel, scl + ("" if m == m0 else "@m=%d" % m)), -1))
+        cases.append((op, body, exp, (rel, scl + ("" if m == m0 else "@m>|p|")), PRI_CHEAP, m))
 
     def relclass(i, j):
         if i == 0 and j == 0:
@@ -793,7 +807,8 @@ def gen_syn(job):
                           "same-object operand, every (P,k) with 0<=k<=#E+1 for unknown-point mult for each declared m, "
                           "every k in that range for base-point mult, twin mult for every A x 7 operand relations x "
                           "%dx%d scalar grid (natural m)" % (N * N, len(grid), len(grid))}
-    return {"kind": "syn", "name": c.name, "bits": m0, "n_bits": n.bit_length(), "m": m0, "cases": cases, "desc": desc}
+    return {"kind": "syn", "name": c.name, "bits": m0, "n_bits": n.bit_length(), "m": m0, "cases": cases, "desc": desc,
+            "big": p > 60, "sid": sid}
 
 
 # ---------------------------------------------------------------------------
@@ -864,7 +879,7 @@ def _extra_marks(case, group):
 
 def judge(part, cfg, info, san, case, group, junk, obs):
     """Compare one observation with the oracle.  Returns True when it is right."""
-    op, body, exp, cls, _ = case
+    op, body, exp, cls = case[:4]
     fam = info.family(op)
     if isinstance(obs, Crash):
         return False
@@ -897,6 +912,73 @@ def judge(part, cfg, info, san, case, group, junk, obs):
     key = _mkey("oracle", op, "wrong-point", fam, _extra_marks(case, group))
     part["violations"].append((key, _witness(cfg, info, san, case, group, junk, _fmt_obs(o), note)))
     return False
+
+
+def _digit_factor(info):
+    f = {8: (8.0, 14.0), 16: (3.0, 4.5), 32: (1.5, 1.8), 64: (1.0, 1.2), 128: (1.0, 1.0)}[info.digit_bits]
+    f = f[0] if info.mulldiv else f[1]
+    if info.proj and info.digit_bits == 8:
+        f *= 2.5
+    return f
+
+
+def unit_ms(info, bits):
+    """crude plain-build cost of one scalar multiplication (calibrated once on this code base)"""
+    return (1.0 if info.proj else 5.5) * _digit_factor(info) * (bits / 256.0) ** 3
+
+
+def load_ms(info, bits):
+    w = info.fxpw
+    ops = {"BIN": 0, "BIN_PRECALC_DBL": bits, "SLIDING_WIN": 1 << w, "COMB_1T": (1 << w) + bits,
+           "COMB_2T": (1 << w) + bits + (1 << w) * bits / (2.0 * w)}[info.fxp]
+    return ops * unit_ms(info, bits) / (1.5 * bits) * (8.0 if info.proj else 4.0)
+
+
+def _h32(i, cfg_i):
+    x = (i * 2654435761 + cfg_i * 0x9E3779B1 + common.seed() * 0x85EBCA6B + 0x27D4EB2F) & 0xFFFFFFFF
+    x ^= x >> 15
+    x = (x * 0x2C1B3C6D) & 0xFFFFFFFF
+    x ^= x >> 12
+    return x
+
+
+def select_cases(g, info, cfg_i):
+    """Which of the generated cases of a group run in this configuration (pure function of seed,
+    configuration and curve; no clock).  Returns (cases, note)."""
+    tier = _TIER
+    if g["kind"] == "syn":
+        if g["big"]:
+            natural8 = info.digit_bits == 8 and g["m"] == 8
+            turn = (cfg_i + g["sid"]) % (4 if tier == "quick" else 6) == 0
+            if not (natural8 or turn):
+                return [], None
+        pad = info.digit_bits if info.digit_bits > g["m"] else g["m"]
+        return [cs for cs in g["cases"] if cs[5] == g["m"] or cs[5] == pad], None
+    bits = g["bits"]
+    lm = load_ms(info, bits)
+    if lm > LOAD_LIMIT_MS[tier]:
+        return [], "table precomputation for %s estimated too slow in this configuration" % g["name"]
+    unit = unit_ms(info, bits)
+    cases = g["cases"]
+    order = sorted(range(len(cases)), key=lambda i: (cases[i][4], _h32(i, cfg_i)))
+    spent = 0.0
+    nm = 0
+    keep = []
+    for i in order:
+        cs = cases[i]
+        if cs[4] == PRI_CHEAP:
+            keep.append(i)
+            continue
+        wgt = unit * (2.0 if cs[0] in (OP_TWIN, OP_TWINBP) else 1.0)
+        if nm >= MIN_MULT_CASES and spent + wgt > BUDGET_MS[tier]:
+            if cs[4] >= PRI_EXT:
+                break
+            continue
+        keep.append(i)
+        spent += wgt
+        nm += 1
+    keep.sort()
+    return [cases[i] for i in keep], None
 
 
 def _run_filtered(exe, cases, junk, dead, counts, part, tag):
@@ -943,7 +1025,11 @@ def run_job(job):
     counts = {"asu": {}, "plain": {}, "msan": {}}
     for gid in gids:
         g = _GROUPS[gid]
-        cases = [cs for cs in g["cases"] if cs[4] < 0 or cs[4] == cfg_i % 4]
+        cases, note = select_cases(g, info, cfg_i)
+        common.part_count(part, "cases_generated", len(g["cases"]))
+        common.part_count(part, "cases_selected", len(cases))
+        if note:
+            part["counters"]["skip:" + note] = part["counters"].get("skip:" + note, 0) + 1
         if not cases:
             continue
         kind = g["kind"]
@@ -1079,14 +1165,15 @@ def run(tier):
     groups.sort(key=lambda g: (g["kind"], g["name"]))
     _GROUPS = groups
 
-    # ---- jobs: (configuration, chunk of curves), balanced by cost ---------------
-    order = sorted(range(len(groups)), key=lambda i: -(len(groups[i]["cases"]) * (1 + (groups[i]["bits"] / 64.0) ** 2.5
-                                                                                   if groups[i]["kind"] == "builtin" else 0.02)))
-    nchunks = 10 if tier == "quick" else 6
-    chunks = [[] for _ in range(nchunks)]
-    for r, gi in enumerate(order):
-        chunks[r % nchunks].append(gi)
-    jobs = [(ci, ch) for ci in range(len(_CFGS)) for ch in chunks if ch]
+    # ---- jobs: one per (configuration, curve), most expensive first ------------------
+    def jcost(ci, gi):
+        g = groups[gi]
+        info = _INFOS[_CFGS[ci]["name"]]
+        if g["kind"] == "syn":
+            return len(g["cases"]) * 0.03
+        return min(BUDGET_MS[tier] * 2, unit_ms(info, g["bits"]) * 60) + load_ms(info, g["bits"])
+    jobs = [(ci, [gi]) for ci in range(len(_CFGS)) for gi in range(len(groups))]
+    jobs.sort(key=lambda j: -jcost(j[0], j[1][0]))
     for part in common.parallel(run_job, jobs):
         report.merge(part)
 
